@@ -168,7 +168,8 @@ def nontrivial(ctx, pb, db, reps_dense):
 
 
 def pat_labels(ctx, pb, db):
-    ctx.label(f"pat={pattern(pb, db)}", f"pb={list(pb)}", f"db={list(db)}", f"nbeta={numel(bshape(pb, db))}")
+    ctx.label(f"pat={pattern(pb, db)}", f"pb_rank={len(pb)}", f"db_rank={len(db)}", f"nbeta={numel(bshape(pb, db))}",
+              f"pair={list(pb)}x{list(db)}" if numel(bshape(pb, db)) == 6 else "pair=(other)")
 
 
 # ---------------------------------------------------------------------------------------------------
@@ -230,7 +231,7 @@ def run_tree(case, ctx: Ctx):
     run_kernel(case, ctx)
     r = case["kernel"]
     ctx.label(*{f"kernel={l['k']}" for l in kern.leaves(r)}, f"composite={kern.is_composite(r)}", f"diag={case['diag']}",
-              f"lazy={case['lazy']}", f"x2={'none' if case['x2'] is None else 'given'}",
+              f"lazy={case['lazy']}",
               f"node_batches={'mixed' if recipe_batch(r) != case['pb'] or _mixed(r) else 'uniform'}")
 
 
@@ -292,7 +293,9 @@ def special_kernel(draw, name, d, pb):
         nk = draw(st.integers(1, 2))
         r.update(t=t, rank=1)
         r["batch"] = []
-        r["parts"] = [draw(kern.base_kernel(d, pb, names=kern.STATIONARY + ["Periodic"])) for _ in range(nk)]
+        # no active_dims on the data kernels: LCMKernel.forward calls MultitaskKernel.forward directly and so ignores them
+        # (the LCM half of F12 - a C06 matter, batched or not)
+        r["parts"] = [draw(kern.base_kernel(d, pb, names=kern.STATIONARY + ["Periodic"], allow_ad=False)) for _ in range(nk)]
         r["p"] = {f"covar_factor{i}": draw(arr([t, 1], kern.REAL)) for i in range(nk)}
         r["p"].update({f"var{i}": draw(arr([t], pos(0.05, 2.0))) for i in range(nk)})
     elif name in ("RBFGrad", "RBFGradGrad", "Matern52Grad"):
@@ -405,7 +408,7 @@ def describe_special(r):
 def run_special(case, ctx: Ctx):
     r = case["kernel"]
     run_kernel(case, ctx, build=build_special, desc=describe_special, prep=prep_special)
-    ctx.label(f"kernel={r['k']}", f"diag={case['diag']}", f"lazy={case['lazy']}", f"x2={'none' if case['x2'] is None else 'given'}")
+    ctx.label(f"kernel={r['k']}", f"diag={case['diag']}", f"lazy={case['lazy']}")
 
 
 
@@ -856,7 +859,8 @@ def run_svgp(case, ctx: Ctx):
         raise Discard("ill-conditioned inducing covariance (kappa>1e+06)")
     # the whitening solve L^-1 K_zx enters q(f) twice (L^-T S L^-1): 1e3 * eps * kappa with kappa <= 1e6, floor 1e-9
     tol = max(G.chol_tol(kappa), 1e-9)
-    for key, own in (("qf.mean", None), ("qf.covariance", None), ("kl", "any"), ("elbo", None)):
+    f_model = bshape(p_model, db)  # q(f) does not see the likelihood; the KL term sees neither likelihood nor data
+    for key, own in (("qf.mean", f_model), ("qf.covariance", f_model), ("kl", "any"), ("elbo", None)):
         vals = [rp[key] for rp in reps]
         sc = max(1.0, max(float(v.abs().max()) for v in vals))
         judge(ctx, key, got[key], vals, full, rtol=tol, atol=tol, own_batch=own, scale=sc)
@@ -864,7 +868,7 @@ def run_svgp(case, ctx: Ctx):
     pat_labels(ctx, pbe, db)
     ctx.label("model=svgp", f"strategy={r['strategy']}", f"dist={r['dist']}", f"training={case['training']}",
               f"zb={'pb' if case['zb'] == pb else 'thin'}", f"vb={'pb' if case['vb'] == pb else 'thin'}",
-              f"kb={'pb' if case['kb'] == pb else 'thin'}", f"model_vs_data={pattern(p_model, db)}")
+              f"kb={'pb' if case['kb'] == pb else 'thin'}")
 
 
 # ---------------------------------------------------------------------------------------------------
@@ -936,7 +940,7 @@ def run_list(case, ctx: Ctx):
     ctx.close("sum_mll", total, want, rtol=1e-13, atol=1e-13)
     distinct = k >= 2 and spread([v.reshape(-1)[:1] for v in mlls]) > 1e-3
     ctx.set_nontrivial(distinct)
-    ctx.label("model=list", f"k={k}", f"tuple_args={case['tuple_args']}", *{f"member_pat={pattern(m['pb'], m['db'])}" for m in ms})
+    ctx.label("model=list", f"k={k}", *{f"member_pat={pattern(m['pb'], m['db'])}" for m in ms})
 
 
 RULE = ("module recipe (36 kernel variants incl. expression trees with per-node batch shapes, Cylindrical / HammingIMQ / Arc / "
@@ -951,14 +955,16 @@ RULE = ("module recipe (36 kernel variants incl. expression trees with per-node 
         "different MLLs); distinct = distinct canonical case.")
 
 SUBCHECKS = [
-    Subcheck("kernel.basic", run_tree, strategy=lambda: tree_case(depth=0), quick=600, thorough=20000, min_shard=40),
-    Subcheck("kernel.composed", run_tree, strategy=lambda: tree_case(depth=2, mixed=True), quick=400, thorough=12000, min_shard=40),
-    Subcheck("kernel.special", run_special, strategy=special_case, quick=800, thorough=25000, min_shard=40),
-    Subcheck("mean", run_mean, strategy=mean_case, quick=300, thorough=8000, min_shard=40),
-    Subcheck("likelihood", run_lik, strategy=lik_case, quick=400, thorough=12000, min_shard=40),
-    Subcheck("exact.gp", run_exact, strategy=exact_case, quick=400, thorough=12000, min_shard=25),
-    Subcheck("svgp", run_svgp, strategy=svgp_case, quick=400, thorough=12000, min_shard=25),
-    Subcheck("model_list", run_list, strategy=list_case, quick=200, thorough=5000, min_shard=25),
+    # sized from the measured per-case cost (cpu column): ~10 ms (basic kernels, means), ~20 ms (trees, likelihoods),
+    # ~60-70 ms (special kernels, exact GP, SVGP: |beta| + 1 model builds), ~70 ms (model lists)
+    Subcheck("kernel.basic", run_tree, strategy=lambda: tree_case(depth=0), quick=1600, thorough=40000, min_shard=50),
+    Subcheck("kernel.composed", run_tree, strategy=lambda: tree_case(depth=2, mixed=True), quick=1000, thorough=25000, min_shard=40),
+    Subcheck("kernel.special", run_special, strategy=special_case, quick=2000, thorough=50000, min_shard=40),
+    Subcheck("mean", run_mean, strategy=mean_case, quick=640, thorough=15000, min_shard=40),
+    Subcheck("likelihood", run_lik, strategy=lik_case, quick=1000, thorough=25000, min_shard=40),
+    Subcheck("exact.gp", run_exact, strategy=exact_case, quick=1000, thorough=30000, min_shard=25),
+    Subcheck("svgp", run_svgp, strategy=svgp_case, quick=800, thorough=25000, min_shard=25),
+    Subcheck("model_list", run_list, strategy=list_case, quick=320, thorough=6000, min_shard=20),
 ]
 
 SPEC = PropertySpec(
